@@ -235,6 +235,16 @@ class Extractor:
                 f = n.func
                 if is_self_attr(f):
                     bad(n, 'method call on self inside an expression', mod)
+            def touches_self(x):
+                return any(is_self_attr(sub) or (isinstance(sub, ast.Name) and sub.id in ('self', 'kwargs'))
+                           for sub in ast.walk(x))
+            if isinstance(n, ast.IfExp) and not touches_self(n.body) and not touches_self(n.orelse):
+                # `a if <test> else b` with self read only in the test: the test is always evaluated
+                visit(n.test)
+                return
+            if isinstance(n, ast.BoolOp) and not any(touches_self(v) for v in n.values[1:]):
+                visit(n.values[0])           # the first operand is always evaluated
+                return
             if isinstance(n, (ast.Lambda, ast.ListComp, ast.SetComp, ast.DictComp,
                               ast.GeneratorExp, ast.NamedExpr, ast.Await, ast.Yield,
                               ast.YieldFrom, ast.IfExp, ast.BoolOp, ast.Starred)):
